@@ -731,6 +731,7 @@ func (f *F) Branches() (fail, failNeg, total int) {
 	case "pc":
 		fail, failNeg = 0, 1
 		for _, e := range f.PC {
+			fail += len(e.Extra) // companion constraints are conjuncts too
 			for _, c := range e.Cs {
 				fail++
 				if c.Body != nil {
